@@ -216,6 +216,8 @@ impl Server {
                                 w.sort();
                                 w
                             },
+                            aborted: conn.transaction_state.aborted,
+                            deferred: conn.deferred_frames.len() + conn.deferred_protocol_error.is_some() as usize,
                         }
                     }) {
                         rows.push(row);
